@@ -607,6 +607,13 @@ func genMatcherStep(t *rapid.T, kind string, cur JNode, comps []pathComp) matche
 			ret = rapid.SampledFrom([]string{`"custom"`, `7`, `false`, `{"z":"y"}`}).Draw(t, "yret")
 		}
 		ms.Return = json.RawMessage(ret)
+		if kind != "yaml" && (node.K == "obj" || node.K == "arr") && rapid.Bool().Draw(t, "inplace") {
+			hasKey := false
+			for _, k := range node.Keys {
+				hasKey = hasKey || k == "scrubbed_by_callback"
+			}
+			ms.InPlace = !hasKey
+		}
 	}
 	st := matcherStep{Spec: ms, Comps: comps}
 	if (ms.Kind == "any" || (ms.Kind == "type" && ms.TypeName == "any")) && rapid.IntRange(0, 2).Draw(t, "multipath") == 0 {
@@ -689,6 +696,19 @@ func applyModel(cur JNode, st matcherStep) (JNode, bool) {
 			repl = JNode{K: "str", S: "<Type:" + goTypeName(node) + ">"}
 		case "custom":
 			repl = jnodeFromRaw(st.Spec.Return)
+			if st.Spec.InPlace {
+				switch {
+				case node.K == "obj":
+					repl = node
+					repl.Keys = append(append([]string{}, node.Keys...), "scrubbed_by_callback")
+					repl.Kids = append(append([]JNode{}, node.Kids...), JNode{K: "bool", B: true})
+					repl = repl.sortedDeep() // the result is a Go map: members come back sorted
+				case node.K == "arr" && len(node.Kids) > 0:
+					repl = node
+					repl.Kids = append([]JNode{{K: "str", S: "scrubbed_by_callback"}}, node.Kids[1:]...)
+					repl = repl.sortedDeep()
+				}
+			}
 		}
 		cur = cur.set(comps, repl)
 	}
@@ -1015,6 +1035,10 @@ func classifyC15(c c15Case) ([]string, bool) {
 			nt = true
 		}
 		cls = append(cls, "matcher_"+st.Spec.Kind)
+		if st.Spec.InPlace {
+			cls = append(cls, "custom_callback_mutating_its_argument_in_place")
+			nt = true
+		}
 		if len(st.allPaths()) > 1 {
 			cls = append(cls, "multi_path_matcher")
 			nt = true
